@@ -170,3 +170,54 @@ def run_read_case(ctx, suite, s, oracle=None, case=None, nontrivial=True):
     if oracle:
         oracle(ctx, case, got)
     return got
+
+
+# ----------------------------------------------------------------------------------------------
+#  writer
+# ----------------------------------------------------------------------------------------------
+def write_request(g, smiles_format=False, default_element='*'):
+    """the driver request for write_graph(g): spanning tree and ring-edge order as the implementation
+    derives them (networkx / CPython set order are external)"""
+    import networkx as nx
+    from pysmiles.smiles_helper import format_atom
+    start = min(g)
+    succ = nx.dfs_successors(g, source=start)
+    tree = set()
+    for a, bs in succ.items():
+        for b in bs:
+            tree.add(frozenset((a, b)))
+    total = set(map(frozenset, g.edges))
+    ring = [tuple(e) for e in list(total - tree)]
+    nodes = []
+    for k, d in g.nodes(data=True):
+        text = format_atom(g, k, default_element) if smiles_format else d['fragname']
+        nodes.append([k, text, list(d.get('bonding', []) or []), bool(d.get('aromatic', False))])
+    edges = [[a, b, lib.order2(d.get('order', 1))] for a, b, d in g.edges(data=True)]
+    for e in ring:
+        if len(e) != 2:
+            raise lib.Unsupported('self loop')
+    return {'op': 'write', 'smiles': smiles_format, 'nodes': nodes, 'edges': edges,
+            'succ': [[a, list(bs)] for a, bs in succ.items()], 'ring': [list(e) for e in ring]}
+
+
+def run_write_case(ctx, suite, g, case, smiles_format=False):
+    """write_graph on the implementation and on the model; returns ('ok', text) / ('err', class)"""
+    from cgsmiles.write_cgsmiles import write_graph
+    try:
+        with lib.quiet():
+            got = ('ok', write_graph(g, smiles_format=smiles_format))
+    except Exception as err:   # noqa: BLE001
+        got = ('err', lib.err_class(err))
+    if not ctx.oracle_only:
+        try:
+            req = write_request(g, smiles_format)
+        except (lib.Unsupported, KeyError, ValueError):
+            ctx.skip_unsupported()
+            return got
+        rep = ctx.model(req)
+        if 'fail' in rep:
+            raise RuntimeError('driver protocol failure: ' + rep['fail'])
+        mod = ('ok', rep['ok']) if 'ok' in rep else ('err', rep.get('err'))
+        if mod != got:
+            ctx.disagree(suite, case, f'write_graph: implementation {got}, model {mod}')
+    return got
